@@ -601,6 +601,19 @@ func run(r *mon.Run) {
 			c.desc = "validity-url " + name
 			runCase(r, id, c, "validity-url", 5)
 		}
+		// a REQUEST URL that is no URL at all: it has no origin either, whatever the validity URL looks like (also when both
+		// strings begin with the same characters)
+		for name, pair := range map[string][2]string{
+			"request-unparsable-port": {"https://example.com:44x/index.html", "https://example.com/v"}, "both-unparsable-same-prefix": {"https://example.com:44x/index.html", "https://example.com:44x/v"},
+			"request-unclosed-ipv6": {"https://[::1/index.html", "https://[::1/v"}, "request-bad-escape-in-host": {"https://exa%zzmple.com/index.html", "https://exa%zzmple.com/v"}} {
+			if !mine() {
+				continue
+			}
+			c := baseCase(ver)
+			c.url, c.validityURL = pair[0], pair[1]
+			c.desc = "request URL " + name
+			runCase(r, id, c, "request-url", 1)
+		}
 		if mine() {
 			c := baseCase(ver)
 			c.url, c.validityURL = "https://example.com:8443/index.html", "https://example.com:8443/v"
